@@ -2,6 +2,9 @@
 EXTENDS Shutdown
 NoDev == {}
 AllDev == {"UnwrapSharedContext", "JoinBlockedInAccept", "SessionIgnoresFlag", "SignalPanicsDebugThread", "UnboundedJoin"}
+DeadJoinDev == {"HandlerPanics", "DeadThreadFailsJoin"}
+HandlerDev == {"HandlerPanics"}
+PoisonDev == {"HandlerPanics", "HandlerPanicPoisons"}
 BusyDev == {"UnboundedJoin"}
 RendezvousDev == AllDev \cup {"RendezvousSignal"}
 SelectDev == {"SignalPanicsDebugThread"}
